@@ -167,9 +167,32 @@ def check_case(case) -> Obs:
                 obs.bad("C10/mask", f"{entry}: tip={tips} ({container}) -> mask field {ad_field(r)!r}, expected {exp_field!r} in {r!r}")
         return recs
 
+    # every call stands for itself: calls that were refused part-way (valid tips followed by an invalid one) come first,
+    # naming tips the case does not use
+    used = {n for k, n in tips if k in ("i", "T") and isinstance(n, int)}
+    others = [n for n in range(1, 9) if n not in used] or [1]
+    Tip = robotools.Tip
+    tip_member = [Tip.T1, Tip.T2, Tip.T3, Tip.T4, Tip.T5, Tip.T6, Tip.T7, Tip.T8][others[-1] - 1]
+
+    def refused_before(wl):
+        for bad in ([others[0], 9], (tip_member, 0), [others[0], "x"], [tip_member, Tip.Any]):
+            try:
+                wl.aspirate_well("L", 1, 5.0, tip=bad)
+            except Exception:
+                pass
+            else:
+                del wl[:]
+        try:
+            wl.evo_wash(tips=[others[0], 9], waste_location=(52, 2), cleaner_location=(52, 1))
+        except Exception:
+            pass
+        else:
+            del wl[:]
+
     for cls in (robotools.EvoWorklist, robotools.FluentWorklist):
         dev = cls.__name__[:3]
         wl = cls()
+        refused_before(wl)
         run(f"{dev}.aspirate_well", lambda: wl.aspirate_well("L", 1, 5.0, tip=make()), 1, wl)
         run(f"{dev}.dispense_well", lambda: wl.dispense_well("L", 2, 5.0, tip=make()), 1, wl)
         if container != "iter":
